@@ -226,15 +226,15 @@ theorem range_sound (σ : Env) : ∀ (e : Sym), good σ e = true →
     intro hg v hv
     simp only [good, Bool.and_eq_true] at hg
     have hok : i32Min ≤ v ∧ v ≤ i32Max := (inI32_iff v).mp (by simpa [okVal, hv] using hg.1.1.2)
-    obtain ⟨x, y, hx, hy, hxy⟩ := eval_bin (g := fun x y => some (Max.max x y)) (by simpa [Sym.eval] using hv)
+    obtain ⟨x, y, hx, hy, hxy⟩ := eval_bin (g := fun x y => some (bcastI x y)) (by simpa [Sym.eval] using hv)
     cases hxy
     obtain ⟨⟨hxl, hxh⟩, _⟩ := iha hg.1.1.1.1 x hx
     obtain ⟨⟨hyl, hyh⟩, _⟩ := ihb hg.1.1.1.2 y hy
     have hx0 : 0 ≤ x := by simpa [nonnegVal, hx] using hg.1.2
     have hy0 : 0 ≤ y := by simpa [nonnegVal, hy] using hg.2
     refine ⟨?_, hok⟩
-    simp only [Sym.range]
-    omega
+    simp only [Sym.range, bcastI]
+    (repeat' split) <;> omega
 
 /-- `RangeSound` holds for every `good` expression — the hypothesis of the `Equal` theorems is
 dischargeable. -/
